@@ -16,6 +16,30 @@ CLAIMED = {
    design_ref="DESIGN.md sections 2.1-2.2, 4 (C09)"),
 }
 
+CLAIMED.update({
+ "C05": dict(
+   engine="storage-fault-injector",
+   category="fault_enumeration",
+   technique="fault injection on stored module bytes (13 enumerated structure-aware fault kinds, nest bombs, unstructured bytes, file-delivery faults) plus resource faults (2 MiB stack, 8 GiB address space, watchdog) in crash-isolated workers; differential verdict oracle against the stand-alone wasmparser validator under both feature configurations",
+   text="The fault kinds are enumerated, their placements sampled from a seeded PRNG with every offset resolved in the case file. Each case is parsed under default and only_stable_features on a default-size thread stack; panic, signal and timeout are attributed to the single input by the driver. Soundness, completeness and the stable-feature gate are equalities with an independent validator and with generator-side knowledge of which proposal a module needs.",
+   note="Trusted: wasmparser 0.214's Validator as the definition of validity; the harness's own feature constants; wasm-encoder/wat for victims. Sampling, not coverage-guided; messages are never compared.",
+   design_ref="DESIGN.md sections 2.4, 4 (C05)"),
+ "C08": dict(
+   engine="lifecycle-simulator",
+   category="exploration",
+   technique="deterministic simulation of ambient nondeterminism: seeded hash entropy (getrandom seam), id-arena global-counter offsets, heap padding, process boundary and (a third of runs) simulated rayon schedules, over seeded emit/file-emit-with-I/O-fault/query/re-parse histories; byte-equality oracle against a pristine-process reference",
+   text="Every emit of every history must equal the bytes a pristine process produced for the same input and configuration: across processes, entropy, arena-counter offsets, addresses and schedules; repeated emits on one value; files written; and parse(E).emit()==E for walrus's own output E.",
+   note="Trusted: the entropy seam (checked live by a canary map each run batch); one machine / toolchain / target. DWARF only where it must be a no-op or on synthesised well-formed input.",
+   design_ref="DESIGN.md sections 2.3, 4 (C08)"),
+ "C12": dict(
+   engine="lifecycle-simulator",
+   category="exploration",
+   technique="deterministic simulation of operation histories (emit, file emit with injected ENOSPC/ENOENT/EISDIR, GC, re-parse under another switch vector, add/delete/remove/get) against an ordered-list reference model; conservation / exactly-once / order checked after every emit by an independent section splitter",
+   text="Seeded histories on modules with 0-6 custom sections spliced at random boundaries (duplicate, empty, non-ASCII and near-miss names; payload lengths on LEB boundaries). After every emit the uninterpreted custom sections of the output must equal the model list; queries are compared step by step.",
+   note="Trusted: the 40-line section splitter; the definition of 'interpreted' (name, producers, .debug*).",
+   design_ref="DESIGN.md section 4 (C12)"),
+})
+
 NOT_APPLICABLE = {
  "C01": "pure function of (module, arguments): deciding it needs side-by-side execution in a wasm interpreter (differential translation validation); no schedule, fault or walrus-side history in the statement, and no interpreter is available offline",
  "C03": "pure function of one function body; the oracle is an independent decoder diff over an exhaustive operator table (translation validation), nothing to schedule or fault",
